@@ -414,3 +414,117 @@ def ob_f(ob):
                     raise HarnessError("hand-over counterexample did not reproduce (%s: %s)" % (lab, bad))
     x = z3.Real("x")
     expect_refuted(ob, x == x + 1, [], "twin: a dropped tangent (0 instead of 1) is noticed", "lra")
+
+
+def replay_eigh_backward(second_order=False):
+    """float64: degen_symeig gradient (and, for second_order, the derivative of that gradient taken through a
+    differentiable replay of backward) vs torch.linalg.eigh's own autograd on a non-degenerate matrix"""
+    from seqm.seqm_functions.diag import degen_symeig
+
+    torch.manual_seed(3)
+    A0 = torch.randn(4, 4, dtype=torch.float64)
+    A0 = A0 + A0.T + torch.diag(torch.arange(4.0, dtype=torch.float64) * 3)
+    wl = torch.randn(4, dtype=torch.float64)
+    wv = torch.randn(4, 4, dtype=torch.float64)
+
+    def loss(fn, A):
+        l, v = fn(A)
+        P = v[:, :2] @ v[:, :2].T  # projector: does not depend on eigenvector signs
+        return (wl * l).sum() + (wv * P).sum()
+
+    res = []
+    for fn in (degen_symeig.apply, lambda A: torch.linalg.eigh(A, UPLO="U")):
+        A = A0.clone().requires_grad_(True)
+        (g,) = torch.autograd.grad(loss(fn, A), A, create_graph=second_order)
+        if second_order:
+            g = g + g.T
+            (h,) = torch.autograd.grad((g * wv).sum(), A, allow_unused=True)
+            res.append(torch.zeros_like(A0) if h is None else (h + h.T))
+        else:
+            res.append(g + g.T)
+    d = (res[0] - res[1]).abs().max().item()
+    print("replay degen_symeig %s derivative vs torch.linalg.eigh autograd: max difference %.3e" % ("second" if second_order else "first", d))
+    return d > 1e-8
+
+
+@obligation(PID, "b", title="degen_symeig: backward is the adjoint of the eigen-decomposition differential for every non-degenerate spectrum (2x2 and 3x3, arbitrary orthonormal eigenvectors, eigenvalues, upstream gradients), and forward saves its own outputs so that a differentiable replay of backward (Hessians) sees their dependence on the matrix")
+def ob_b(ob):
+    from seqm.seqm_functions import diag as DG
+
+    ob.encodes(DG.degen_symeig.forward, DG.degen_symeig.backward)
+    ob.bound("n = 2 (rotation by a symbolic angle: c^2 + s^2 = 1) and n = 3 (product of two symbolic Givens rotations); eigenvalues separated by more than the degeneracy threshold; upstream gradients and the symmetric perturbation dA symbolic")
+    ob.assume("first-order perturbation theory of a symmetric eigenproblem is the reference: d lambda_i = v_i' dA v_i, d v_i = sum_{j != i} v_j (v_j' dA v_i)/(lambda_i - lambda_j)")
+    # (1) forward saves the returned tensors themselves
+    rec = types.SimpleNamespace(save_for_backward=lambda *t: setattr(rec, "saved", t))
+    A = torch.tensor([[2.0, 0.3, 0.1], [0.3, 1.0, -0.2], [0.1, -0.2, -1.0]], dtype=torch.float64)
+    out = DG.degen_symeig.forward(rec, A)
+    if not (len(rec.saved) == 2 and rec.saved[0] is out[0] and rec.saved[1] is out[1]):
+        if replay_eigh_backward(True):
+            ob.violation("degen_symeig.forward saves tensors that are not its outputs: a differentiable replay of backward treats eigenvalues/eigenvectors as constants, so second derivatives (Hessians, normal modes) through the eigensolver are wrong", {"module": "harness.C07", "func": "replay_eigh_backward", "args": {"second_order": True}})
+            return
+        raise HarnessError("saved-tensor identity violated but second derivatives still agree")
+    ob.discharged("b:forward saves its outputs")
+    thr = S.rv(float(DG.DEGEN_THRESHOLD))
+    for n in (2, 3):
+        S.reset()
+        c1, s1, c2, s2 = z3.Reals("c1 s1 c2 s2")
+        if n == 2:
+            V = np.array([[c1, -s1], [s1, c1]], dtype=object)
+            assm = [c1 * c1 + s1 * s1 == 1]
+        else:
+            G1 = np.array([[c1, -s1, 0], [s1, c1, 0], [0, 0, 1]], dtype=object)
+            G2 = np.array([[1, 0, 0], [0, c2, -s2], [0, s2, c2]], dtype=object)
+            V = np.array([[sum(G1[i, k] * G2[k, j] for k in range(3)) for j in range(3)] for i in range(3)], dtype=object)
+            V = np.vectorize(lambda e: z3.simplify(e) if isinstance(e, z3.ExprRef) else z3.RealVal(e), otypes=[object])(V)
+            assm = [c1 * c1 + s1 * s1 == 1, c2 * c2 + s2 * s2 == 1]
+        lam = [z3.Real("l%d" % i) for i in range(n)]
+        assm += [lam[i + 1] - lam[i] > thr for i in range(n - 1)]
+        gl = [z3.Real("gl%d" % i) for i in range(n)]
+        gV = np.array([[z3.Real("gv%d_%d" % (i, j)) for j in range(n)] for i in range(n)], dtype=object)
+        dA = np.empty((n, n), dtype=object)
+        for i in range(n):
+            for j in range(i, n):
+                dA[i, j] = dA[j, i] = z3.Real("dA%d_%d" % (i, j))
+        ctx = types.SimpleNamespace(saved_tensors=(SymTensor(np.array(lam, dtype=object)), SymTensor(V.copy())))
+
+        def fn():
+            with symbolic_factories(bool_symbolic=True):
+                r = DG.degen_symeig.backward(ctx, SymTensor(np.array(gl, dtype=object)), SymTensor(gV.copy()))
+            return r.a.copy()
+
+        ex = Explorer(assumptions=assm, piecewise="decide", kind="nra", max_paths=40)
+        res = ex.run(fn)
+        ob.paths += ex.paths
+        ob.require(len(res) >= 1, "no feasible path through degen_symeig.backward")
+        for pc, side, R in res:
+            S.ST.side[:] = side
+            base = assm + list(pc)
+            # reference: <g_lambda, d lambda> + <g_V, d V>
+            M = [[sum(V[a, i] * dA[a, b] * V[b, j] for a in range(n) for b in range(n)) for j in range(n)] for i in range(n)]  # V' dA V
+            ref = sum(gl[i] * M[i][i] for i in range(n))
+            for i in range(n):
+                for j in range(n):
+                    if i != j:
+                        # d v_i = sum_j v_j M[j][i]/(l_i - l_j)
+                        ref = ref + sum(gV[a, i] * V[a, j] for a in range(n)) * M[j][i] / (lam[i] - lam[j])
+            got = sum(R[a, b] * dA[a, b] for a in range(n) for b in range(n))
+            # the identity is bilinear in (upstream gradient, dA): decide it coefficient by coefficient
+            gvars = list(gl) + [gV[i, j] for i in range(n) for j in range(n)]
+            dvars = [dA[i, j] for i in range(n) for j in range(i, n)]
+            diff = got - ref
+            for gi, g1 in enumerate(gvars):
+                for di, d1 in enumerate(dvars):
+                    sub = [(x, z3.RealVal(1 if x is g1 else 0)) for x in gvars] + [(x, z3.RealVal(1 if x is d1 else 0)) for x in dvars]
+                    coef = z3.simplify(z3.substitute(diff, *sub))
+                    lab = "b:adjoint identity n=%d, coefficient of %s * %s" % (n, g1, d1)
+                    side_obl = []
+                    claim = smt.flatten_div(coef, side_obl) == 0
+                    v, m = smt.prove(claim, base, lab, "nra", 60)
+                    if v == "sat":
+                        if replay_eigh_backward(False):
+                            ob.violation("degen_symeig.backward is not the adjoint of the eigen-decomposition differential for a non-degenerate %dx%d spectrum (%s)" % (n, n, lab), {"module": "harness.C07", "func": "replay_eigh_backward", "args": {"second_order": False}})
+                            return
+                        raise HarnessError("eigen-backward counterexample did not reproduce (n=%d)" % n)
+                    ob.verdict(v, lab)
+    x = z3.Real("x")
+    expect_refuted(ob, 2 * x == x, [], "twin: a doubled eigenvalue term is noticed", "nra")
